@@ -113,6 +113,41 @@ def c06(res, tier, seed):
             bad = plan[k] if (cur is not None and 0 <= k < len(plan)) else (plan[k + 1] if 0 <= k + 1 < len(plan) else ("?", "?"))
             res.violation("scanning a mutant of %s (%s) crashed / hung / leaked: %s" % (os.path.basename(bad[0]), bad[1], yv.crash_summary(run)),
                           yv.save_replay("C06", "crash_%d_%d" % (batch_i, k + 1), {"seed": bad[0], "mutation": bad[1], "crash": yv.crash_summary(run), "stderr": (run.stderr or "")[-3000:]}))
+    # ---- structured family (gen/pegen.py): every table of a generated PE placed last in the file, cut inside it, counts inflated
+    import pegen
+    fam = pegen.family(r, tier)
+    res.cov["parts"]["structured_pe_mutants"] = len(fam)
+    queue = [fam[bi:bi + 400] for bi in range(0, len(fam), 400)]
+    bi = -1
+    while queue:
+        part = queue.pop(0); bi += 1
+        lines = ["init", "opt iterlog 0", "opt logmatches 0", "opt walkmodules 1", "opt flushscan 1", "opt hang 20", "compiler 0", "add 0 - " + yv.hx(RULES.encode()), "getrules 0 0", "cdestroy 0", "scanner 0 0"]
+        for label, data in part:
+            lines += ["data 1 " + yv.hx(data), "scan 0 1 mem - - -"]
+        lines += ["sdestroy 0", "rdestroy 0", "leakcheck", "finalize"]
+        run = yv.run_script(exe, lines, wd, name="c06_pe_%d" % bi, hang=20, timeout=3000, parse=True)
+        k, cur = -1, None
+        for e in run.events:
+            if e["e"] == "ScanCall":
+                k += 1; cur = {"imp": 0, "imped": 0, "fin": 0, "sig": []}
+            elif e["e"] == "Cb" and cur is not None:
+                if e["msg"] == "import": cur["imp"] += 1
+                elif e["msg"] == "imported": cur["imped"] += 1
+                elif e["msg"] == "finished": cur["fin"] += 1
+                elif e["msg"] in ("match", "nomatch"): cur["sig"].append(e["msg"][0])
+            elif e["e"] == "ScanRet" and cur is not None and k < len(part):
+                records.append({"kind": "modscan", "ret": e["ret"], "nimport": cur["imp"], "nimported": cur["imped"], "finished": cur["fin"], "nmods": len(MODS)})
+                owners.append(("generated PE", part[k][0]))
+                sigs.add(("pegen", part[k][0].split(" cut=")[0], "".join(cur["sig"])))
+                evaluations += 1
+                cur = None
+        if not run.complete:
+            kk = k if cur is not None else k + 1
+            label = part[kk][0] if 0 <= kk < len(part) else "?"
+            res.violation("scanning a generated PE (%s) crashed / hung / leaked: %s" % (label, yv.crash_summary(run)),
+                          yv.save_replay("C06", "pegen_%d_%d" % (bi, kk), {"generated": label, "data_hex": part[kk][1].hex() if 0 <= kk < len(part) else "", "crash": yv.crash_summary(run), "stderr": (run.stderr or "")[-3000:]}))
+            if 0 <= kk < len(part) - 1 and bi < 60:
+                queue.insert(0, part[kk + 1:])          # the mutants after the crashing one are still scanned
     bad, known, states = func.tlc_judge2(records, wd, "c06")
     res.cov["states"] += states; res.cov["transitions"] += states
     res.cov["traces_validated_against_impl"] += len(records) - len(bad)
@@ -128,5 +163,7 @@ def c06(res, tier, seed):
     res.cov["rule"] = ("seeds = tests/data + tests/oss-fuzz corpora (PE, ELF, .NET, Mach-O, DEX); mutants per FieldMut.tla: every truncation length (stride for large files), every byte "
                        "position of the first 512 bytes and a stride above as a field of width 1/2/4/8, both byte orders, set to {0, 1, n-1, n, n+1, 2^15-1, 2^16-1, 2^31-1, 2^31, 2^32-1, "
                        "all-ones}; scanned with a rule set calling every function of every module while the imported-module callback walks the whole object tree; distinct_nontrivial = "
-                       "distinct (seed, verdict vector) signatures = mutants that changed what the modules parsed")
+                       "distinct (seed, verdict vector) signatures = mutants that changed what the modules parsed; plus the structured family of gen/pegen.py: a generated PE32 with "
+                       "exports (named, ordinal-only, forwarded), imports, delayed imports, a resource tree with a version block of 0..300 (thorough 1000) keys, debug/CodeView, Rich header "
+                       "and certificate table, with every chunk placed last in the file x cuts inside it x every count field inflated")
     res.assumptions += ["memory safety for ALL byte strings is not decidable by this technique; a removed bounds check is detected iff a scheduled mutant reaches it (DESIGN.md section 6)"]
